@@ -63,11 +63,10 @@ Print Assumptions C33_close_drains_then_eof_partial.
 (* what can happen with a Write racing with Close: it passed its closed-check, Close comes, the reader sees EOF,
    then the Write succeeds — the reader can then still read those bytes (the stream theorem covers them) *)
 Example C33_ex_write_in_flight_at_close :
-  exists tr s, reach tr s /\ hist s = [EvW [7] false WOk; EvR 4 [] REof] /\ chan s = [[7]].
-Proof.
-  exists [LWStart [7]; LWChkOpen; LClose; LRStart 4; LRTakeDefault; LRStopWake; LRStopEof; LWSendFast].
-  eexists. split; [reflexivity|]. split; reflexivity.
-Qed.
+  match run dinit [LWStart [7]; LWChkOpen; LClose; LRStart 4; LRTakeDefault; LRStopWake; LRStopEof; LWSendFast] with
+  | Some s => hist s = [EvW [7] false WOk; EvR 4 [] REof] /\ chan s = [[7]]
+  | None => False end.
+Proof. vm_compute. split; reflexivity. Qed.
 
 (* ---- writes after Close fail ----
    every Write call that STARTED when stopCh was already closed returned ErrConnectionClosed (0 bytes: it does
@@ -132,11 +131,12 @@ Print Assumptions C33_no_success_after_close.
 
 (* non-vacuity: a transfer with a partial read, Close with data pending, EOF after the data *)
 Example C33_ex_transfer :
-  exists s, run dinit [LWStart [1;2;3]; LWChkOpen; LWSendFast; LRStart 2; LRTakeFast; LClose;
-                       LWStart [9]; LWChkClosed; LRStart 5; LRTakeDefault;
-                       LRStart 5; LRTakeDefault; LRStopWake; LRStopEof] = Some s /\
-            hist s = [EvR 5 [] REof; EvR 5 [3] ROk; EvW [9] true WClosed; EvR 2 [1;2] ROk; EvW [1;2;3] false WOk].
-Proof. eexists. split; reflexivity. Qed.
+  match run dinit [LWStart [1;2;3]; LWChkOpen; LWSendFast; LRStart 2; LRTakeFast; LClose;
+                   LWStart [9]; LWChkClosed; LRStart 5; LRTakeDefault;
+                   LRStart 5; LRTakeDefault; LRStopWake; LRStopEof] with
+  | Some s => hist s = [EvR 5 [] REof; EvR 5 [3] ROk; EvW [9] true WClosed; EvR 2 [1;2] ROk; EvW [1;2;3] false WOk]
+  | None => False end.
+Proof. vm_compute. reflexivity. Qed.
 (* non-vacuity: Dial 0 and Accept 0 pair up, then Close, then Dial 1 fails *)
 Example C33_ex_listener :
   match lrun linit [LDStart 0; LDLockOpen 0; LDChk2Open 0; LDSendOk 0; LDWait1Default 0;
